@@ -20,8 +20,9 @@ FACTS = {
         ('let_copies_dict', 'elementpath/xpath30/_xpath30_operators.py', 'select__let_expression', 'order', 'context.variables = context.variables.copy() ;; context.variables[varname] = value'),
         ('let_value_in_new_scope', 'elementpath/xpath30/_xpath30_operators.py', 'select__let_expression', 'has', 'value = self[k + 1].evaluate(context)'),
         ('iter_product_writes_variable', 'elementpath/xpath_context.py', 'XPathContext.iter_product', 'has', 'self.variables[varnames[k]] = value'),
-        ('iter_product_recreates_iterator', 'elementpath/xpath_context.py', 'XPathContext.iter_product', 'order', 'iterators[k] = selectors[k](self) ;; k -= 1'),
-        ('iter_product_lazy_iterators', 'elementpath/xpath_context.py', 'XPathContext.iter_product', 'has', 'iterators = [x(self) for x in selectors]'),
+        ('iter_product_recreates_iterator', 'elementpath/xpath_context.py', 'XPathContext.iter_product', 'order', 'iterators[k] = start(k) ;; k -= 1'),
+        ('iter_product_lazy_iterators', 'elementpath/xpath_context.py', 'XPathContext.iter_product', 'has', 'iterators = [start(k) for k in range(len(selectors))]'),
+        ('iter_product_range_sees_a_snapshot', 'elementpath/xpath_context.py', 'XPathContext.iter_product', 'order', 'def start(index: int) -> Iterator[Any]: ;; context = copy(self) ;; context.variables = self.variables.copy() ;; yield from selectors[index](context)'),
         ('context_copy_shares_variables', 'elementpath/xpath_context.py', 'XPathContext.__copy__', 'has', 'obj.variables = self.variables'),
         ('inline_call_scope', 'elementpath/xpath30/_xpath30_functions.py', '_InlineFunction.__call__', 'order', 'context = copy(context) ;; context.variables = context.variables.copy()'),
         ('timezone_on_copies', 'elementpath/xpath_tokens/base.py', 'XPathToken.get_operands', 'order', 'op1 = copy(op1) ;; op1.tzinfo = context.timezone'),
